@@ -8,14 +8,16 @@
 set -u
 SRC=$1; NAME=$2; CHECKS=${3:-}
 WT=/tmp/seedwt_$NAME
-export CARGO_TARGET_DIR=/tmp/seed_target
+SLOT=${SEED_SLOT:-0}
+export CARGO_TARGET_DIR=/tmp/seed_target_$SLOT
 export CARGO_NET_OFFLINE=true
 git -C /repo worktree remove --force $WT 2>/dev/null
 git -C /repo worktree add -q --detach $WT HEAD || exit 2
 cd $WT
 git apply $SRC/patch.diff || { echo "PATCH-DOES-NOT-APPLY"; exit 3; }
 if [ -f $SRC/seeded_demo.rs ]; then mkdir -p tests; cp $SRC/seeded_demo.rs tests/; fi
-if [ -f $SRC/demo.diff ] && [ ! -f $SRC/seeded_demo.rs ]; then git apply $SRC/demo.diff || echo "DEMO-DIFF-DOES-NOT-APPLY"; fi
+DEMOKIND="--test seeded_demo"
+if [ -f $SRC/demo.diff ] && [ ! -f $SRC/seeded_demo.rs ]; then git apply $SRC/demo.diff || echo "DEMO-DIFF-DOES-NOT-APPLY"; DEMOKIND="--lib seeded_demo"; fi
 echo "== existing suite with patch"
 cargo test --offline --lib 2>&1 | grep "test result" | head -3
 DEMO_CMD=$(python3 -c "import json;print(json.load(open('$SRC/meta.json')).get('demo_cmd',''))")
@@ -23,25 +25,26 @@ echo "demo_cmd: $DEMO_CMD"
 FLAGS=""
 case "$DEMO_CMD" in *routinator_verif*) FLAGS="--cfg routinator_verif";; esac
 echo "== demo with patch (expect failure)"
-RUSTFLAGS="$FLAGS" CARGO_TARGET_DIR=/tmp/seed_target${FLAGS:+_verif} timeout 1800 cargo test --offline --test seeded_demo 2>&1 | grep -E "test result|panicked|FAILED|error(\[|:)" | head -8
+RUSTFLAGS="$FLAGS" CARGO_TARGET_DIR=/tmp/seed_target_$SLOT${FLAGS:+_verif} timeout 1800 cargo test --offline $DEMOKIND 2>&1 | grep -E "test result|panicked|FAILED|error(\[|:)" | head -8
 echo "== demo without patch (expect pass)"
-git apply -R $SRC/patch.diff
-RUSTFLAGS="$FLAGS" CARGO_TARGET_DIR=/tmp/seed_target${FLAGS:+_verif} timeout 1800 cargo test --offline --test seeded_demo 2>&1 | grep -E "test result|panicked|FAILED|error(\[|:)" | head -8
+git apply -R $SRC/patch.diff || echo "REVERSE-FAILED"
+RUSTFLAGS="$FLAGS" CARGO_TARGET_DIR=/tmp/seed_target_$SLOT${FLAGS:+_verif} timeout 1800 cargo test --offline $DEMOKIND 2>&1 | grep -E "test result|panicked|FAILED|error(\[|:)" | head -8
 git apply $SRC/patch.diff
 rm -f tests/seeded_demo.rs
+if [ -f $SRC/demo.diff ] && [ ! -f $SRC/seeded_demo.rs ]; then git apply -R $SRC/demo.diff 2>/dev/null; fi
 if [ -n "$CHECKS" ]; then
   # bring the scratch tree up to /repo's working tree (uncommitted hook blocks of checks being built), then the seed on top
   git apply -R $SRC/patch.diff
   git -C /repo diff > /tmp/seed_wip_$NAME.patch
   [ -s /tmp/seed_wip_$NAME.patch ] && (git apply /tmp/seed_wip_$NAME.patch || echo "WIP-OVERLAY-FAILED")
   git apply $SRC/patch.diff || echo "PATCH-DOES-NOT-APPLY-ON-WORKING-TREE"
-  HX=/tmp/seedhx
+  HX=/tmp/seedhx_$SLOT
   mkdir -p $HX
   rsync -a --delete --exclude target /verif/harness/ $HX/
   sed -i "s|routinator = { path = \"/repo\" }|routinator = { path = \"$WT\" }|" $HX/Cargo.toml
   for c in $CHECKS; do
     echo "== ./check $c against patched tree"
-    (cd /verif && RV_HARNESS=$HX CARGO_TARGET_DIR=/tmp/seedhx_target RV_NO_EVIDENCE=1 ./check $c 2>&1 | tail -3)
+    (cd /verif && RV_HARNESS=$HX CARGO_TARGET_DIR=/tmp/seedhx_target_$SLOT RV_NO_EVIDENCE=1 ./check $c 2>&1 | tail -3)
   done
 fi
 cd /; git -C /repo worktree remove --force $WT
